@@ -100,6 +100,16 @@ def judge(sim, ev, rec):
                 sim.count("probe.provider-failed-independent-of-content." + str(rec.get("error")))
     elif k == "req":
         judge_req(sim, ev, rec)
+    elif k == "slo":
+        # C20: a logout the client reports as done rests on an answer it really judged: when the IdP signed its
+        # LogoutResponse, the SP's tool must have genuinely verified it
+        if rec.get("returned") and rec.get("exchanges") and rec.get("sign_answer"):
+            genuine = [t for t in rec.get("tool") or [] if t.get("op") == "verify" and t.get("node") == rec["sp"]
+                       and t.get("genuine_ok")]
+            sim.count("oracle.C20.logout-judged")
+            if not genuine:
+                add(sim, rec, "C20", "logout-confirmed-without-genuine-verify",
+                    "tool=%s" % [(t.get("node"), t.get("op"), t.get("fault"), t.get("healthy_ok")) for t in rec.get("tool") or []])
 
 
 # ------------------------------------------------------------------------------------- time
@@ -181,15 +191,24 @@ def time_hits(eff, resp_issue_instant, now, slack):
     return hits, comfortable, unspec
 
 
-def expected_session_expiry(eff):
-    if not eff:
-        return None
-    a = eff[0]
+def _session_expiry_of(a):
     if a["authn"] and a["authn"][0]["session_not_on_or_after"]:
         return wire.ts_epoch(a["authn"][0]["session_not_on_or_after"])
     if a["conditions"] and a["conditions"]["not_on_or_after"]:
         return wire.ts_epoch(a["conditions"]["not_on_or_after"])
     return None
+
+
+def expected_session_expiry(eff):
+    if not eff:
+        return None
+    return _session_expiry_of(eff[0])
+
+
+def acceptable_session_expiries(eff):
+    """With several assertions in one response the statement does not say whose expiry "the" session expiry is:
+    any one of theirs will do (with a single assertion this is the one value of expected_session_expiry)."""
+    return [x for x in (_session_expiry_of(a) for a in eff) if x is not None]
 
 
 # ------------------------------------------------------------------------------------- responses
@@ -486,7 +505,7 @@ def check_content(sim, rec, m, eff, out, asked, hits):
     # session expiry handed to the application
     exp = expected_session_expiry(eff)
     if exp is not None and "session_nooa" in out and not corrupted:
-        if out["session_nooa"] != exp:
+        if out["session_nooa"] != exp and out["session_nooa"] not in acceptable_session_expiries(eff):
             add(sim, rec, "C04", "session-expiry-mismatch", "got=%s expected=%s" % (out["session_nooa"], exp))
             add(sim, rec, "C08", "session-expiry-mismatch", "got=%s expected=%s" % (out["session_nooa"], exp))
     # came_from
@@ -509,7 +528,8 @@ def check_content(sim, rec, m, eff, out, asked, hits):
     ident = asked.get("identity")
     if ident is not None and asked.get("sp_view"):
         # the SP's metadata asks for particular attributes: only those are released to it
-        ident, asked_for, refuse = fed.expected_release(ident, asked["sp_view"], asked.get("p", {}).get("entity_categories"))
+        ident, asked_for, refuse = fed.expected_release(ident, asked["sp_view"], asked.get("p", {}).get("entity_categories"),
+                                                        asked.get("p", {}).get("attr_restrictions"))
         if refuse:
             # a required attribute is missing: the documented answer is an error response; this code base
             # answers "best effort" instead (Server.create_authn_response hard-codes it) and what is
@@ -518,6 +538,8 @@ def check_content(sim, rec, m, eff, out, asked, hits):
             ident, asked_for = None, None
         if asked_for is not None:
             sim.count("probe.release-narrowed-to-requested")
+            # (a policy may list an attribute under an alias of the name the SP reads it under)
+            asked_for = set(asked_for) | set((documented_local_name(n) or n).lower() for n in asked_for)
             for k in (out.get("ava") or {}):
                 if k.lower() not in asked_for:
                     add(sim, rec, "C08", "attribute-never-asked-for-released", "%s (asked for: %s)" % (k, sorted(asked_for)))
